@@ -1179,8 +1179,12 @@ class VerilogCase(ast.AST):
             if len(sts) > 1:
                 str += 'end\n'
                 
-        str += 'default:'
         sts = self.default
+        
+        if len(sts) > 0:
+            # a default item needs a statement, without 'case _' there is none
+            str += 'default:'
+            
         if len(sts) > 1:
             str += 'begin\n'
 
